@@ -10,6 +10,8 @@ import guard.  Transcripts must equal the reference; the command lines built for
 
 from __future__ import annotations
 
+import os
+
 import sys
 
 from . import c16_transports as c16
@@ -51,6 +53,11 @@ def gen(rng, tier):
     while True:
         case = c16.gen(rng, tier)
         if case["mode"] == "equiv":
+            # one run in seven has EXECNET_DEBUG=1 in the environment the workers see: the shipped source then takes
+            # its file-tracing branch at load time and on every trace() call (the import-bootstrapped reference
+            # does not: its module was imported long before)
+            case["debug_env"] = rng.random() < 0.15
+            case["scratch"] = "vsim-c15-%08x" % rng.randrange(1 << 32)
             return case
 
 
@@ -103,7 +110,26 @@ def inspect(t, sub, res, hist):
 
 
 def execute(case, chooser):
-    out = c16.run_equiv(case, chooser, PATHS, inspect=inspect)
+    if case.get("debug_env"):
+        import shutil
+        import tempfile
+        d = os.path.join("/dev/shm", case["scratch"] + "-" + os.environ.get("VERIF_RUN_TAG", "00000000"))
+        shutil.rmtree(d, ignore_errors=True)
+        os.makedirs(d)
+        old_env, old_tmp = os.environ.get("EXECNET_DEBUG"), tempfile.tempdir
+        os.environ["EXECNET_DEBUG"] = "1"
+        tempfile.tempdir = d
+        try:
+            out = c16.run_equiv(case, chooser, PATHS, inspect=inspect)
+        finally:
+            if old_env is None:
+                os.environ.pop("EXECNET_DEBUG", None)
+            else:
+                os.environ["EXECNET_DEBUG"] = old_env
+            tempfile.tempdir = old_tmp
+            shutil.rmtree(d, ignore_errors=True)
+    else:
+        out = c16.run_equiv(case, chooser, PATHS, inspect=inspect)
     # a denied import that the shipped code does not handle shows up as a failed run (setup-failed /
     # RemoteError / transcript difference); name it explicitly when the text says so
     for x in out["violations"]:
